@@ -184,13 +184,14 @@ where
     // The subscriber is consumed by a task of its own, woken only by the subscriber's own wakers:
     // wrapping `next()` in a timeout would re-poll it when the timer fires and mask a lost wake-up.
     let (item_tx, mut sub) = tokio::sync::mpsc::unbounded_channel::<Option<selium::std::errors::Result<Item>>>();
-    let gate = std::sync::Arc::new((std::sync::atomic::AtomicBool::new(false), tokio::sync::Notify::new()));
-    let gate2 = gate.clone();
+    let (gate, mut gate_rx) = tokio::sync::watch::channel(false);
     let reader = tokio::spawn(async move {
         loop {
             // a subscriber that is momentarily not reading (back-pressure towards the publisher)
-            while gate2.0.load(std::sync::atomic::Ordering::SeqCst) {
-                gate2.1.notified().await;
+            while *gate_rx.borrow_and_update() {
+                if gate_rx.changed().await.is_err() {
+                    return;
+                }
             }
             let it = sub_stream.next().await;
             let end = it.is_none();
@@ -248,12 +249,11 @@ where
     let mut publisher = Some(pb.open().await?);
     let mut sent: Vec<Item> = vec![];
     if burst {
-        gate.0.store(true, std::sync::atomic::Ordering::SeqCst);
+        let _ = gate.send(true);
     }
     for op in &ops {
         if burst && op == "finish" {
-            gate.0.store(false, std::sync::atomic::Ordering::SeqCst);
-            gate.1.notify_waiters();
+            let _ = gate.send(false);
         }
         if elapses {
             tokio::time::sleep(Duration::from_millis(4)).await;
@@ -273,8 +273,7 @@ where
                     match tokio::time::timeout(Duration::from_millis(300), p.feed(item.clone())).await {
                         Ok(r) => r,
                         Err(_) => {
-                            gate.0.store(false, std::sync::atomic::Ordering::SeqCst);
-                            gate.1.notify_waiters();
+                            let _ = gate.send(false);
                             p.feed(item).await
                         }
                     }
